@@ -2,7 +2,6 @@ package c18
 
 import (
 	"context"
-	"os"
 	"fmt"
 	"runtime"
 	"sort"
@@ -57,9 +56,6 @@ func (d *driver) sessionEnded() {
 		// case cannot be judged; it is counted and reported to the owners of the
 		// transmit properties (C05/C10).
 		d.c.Count("session_lost_to_cancelled_senders_write_deadline", 1)
-		if os.Getenv("C18_DEBUG") != "" {
-			d.c.Violate("debug:session-lost", "Serve returned %v", err)
-		}
 		d.c.Notef("Serve returned %v", err)
 		return
 	}
